@@ -203,13 +203,13 @@ theorem micro_header (fs : FS) (lenHi lenLo b6 t0 t1 t2 t3 t4 did x y : Nat)
   rw [e]
 
 /-- one accepted packet at a packet boundary: header step, skip to the payload, payload step, skip to
-the next packet boundary.  What the payload step does to the frame state is left to the caller
-(`pesPacketFrame_first` / `pesPacketFrame_next`). -/
-theorem arun_packet (fs : FS) (pk rest : Bytes) (p : Pes) (hp : parsePes pk = some p) (hb : ∀ b ∈ pk, b < 256) :
+the next packet boundary - for whatever the payload step (`payloadRes`: `demux_pes_packet_frame` and
+the error handling behind it) does to the frame state, as long as it does not stop the loop. -/
+theorem arun_packet_res (fs : FS) (pk rest : Bytes) (p : Pes) (hp : parsePes pk = some p) (hb : ∀ b ∈ pk, b < 256) :
     ∃ us, unitsLines us = some p.lines ∧
       ∀ fs2 outs,
-        pesPacketFrame 3 true cfg.corSkipsEmpty
-            { fs with packetPts := p.pts, frame := { fs.frame with nDu := 0 } } (encUnits us) = (fs2, outs, .done, []) →
+        payloadRes true cfg 0 (encUnits us).length { fs with packetPts := p.pts } (encUnits us)
+            = (((encUnits us).length, 48), fs2, outs, none) →
         arun cfg { skip := 0, lookahead := 48, fs := fs } (pk ++ rest)
           = (arun cfg { skip := 0, lookahead := 48, fs := fs2 } rest).pre outs := by
   obtain ⟨lenHi, lenLo, b6, T, did, us, hpk, hT, hlen, h184, h6, hdid, hpts, hul, _, _⟩ := parsePes_inv pk p hp
@@ -265,9 +265,7 @@ theorem arun_packet (fs : FS) (pk rest : Bytes) (p : Pes) (hp : parsePes pk = so
     (by show pesIter true cfg 0 (encUnits us).length _ ((encUnits us ++ rest).take (encUnits us).length) = _
         rw [List.take_append_of_le_length (Nat.le_refl _), List.take_of_length_le (Nat.le_refl _)]
         rw [pesIter_payload _ _ _ _ _ (by omega) (Nat.le_refl _), List.take_of_length_le (Nat.le_refl _)]
-        unfold payloadRes
-        rw [hpf]
-        rfl)
+        exact hpf)
     (by omega)
   rw [s3]
   -- step 4: skip the payload
@@ -276,5 +274,30 @@ theorem arun_packet (fs : FS) (pk rest : Bytes) (p : Pes) (hp : parsePes pk = so
   rw [Nat.add_zero, List.drop_append_of_le_length (Nat.le_refl _), List.drop_of_length_le (Nat.le_refl _),
     List.nil_append] at s4
   rw [s4]
+
+/-- ... when the payload step succeeds (result 0).  What it does to the frame state is left to the
+caller (`pesPacketFrame_first` / `pesPacketFrame_next`). -/
+theorem arun_packet (fs : FS) (pk rest : Bytes) (p : Pes) (hp : parsePes pk = some p) (hb : ∀ b ∈ pk, b < 256) :
+    ∃ us, unitsLines us = some p.lines ∧
+      (∀ fs2 outs,
+        pesPacketFrame cfg 3 true cfg.corSkipsEmpty
+            { fs with packetPts := p.pts, frame := { fs.frame with nDu := 0 } } (encUnits us) = (fs2, outs, .done, []) →
+        arun cfg { skip := 0, lookahead := 48, fs := fs } (pk ++ rest)
+          = (arun cfg { skip := 0, lookahead := 48, fs := fs2 } rest).pre outs)
+      ∧ (∀ fs2 outs rest',
+        pesPacketFrame cfg 3 true cfg.corSkipsEmpty
+            { fs with packetPts := p.pts, frame := { fs.frame with nDu := 0 } } (encUnits us) = (fs2, outs, .err, rest') →
+        arun cfg { skip := 0, lookahead := 48, fs := fs } (pk ++ rest)
+          = (arun cfg { skip := 0, lookahead := 48, fs := pesErrFs cfg fs2 } rest).pre outs) := by
+  obtain ⟨us, hul, h⟩ := arun_packet_res (cfg := cfg) fs pk rest p hp hb
+  refine ⟨us, hul, ?_, ?_⟩
+  · intro fs2 outs hpf
+    apply h
+    unfold payloadRes
+    rw [hpf]; rfl
+  · intro fs2 outs rest' hpf
+    apply h
+    unfold payloadRes
+    rw [hpf]; rfl
 
 end Zvbi.Demux
